@@ -301,6 +301,18 @@ pub fn check(ctx: &Ctx) -> Check {
             }),
             eval: Box::new(eval_shape),
         }),
+        Box::new(EnumPart {
+            name: "lib-large-shapes",
+            rule: "spectra of 4 097 .. 8 910 entries in 1..4 axes (even and odd totals): the same per-cell definition and laws as lib-exhaustive, 4 fills x 3 value vectors each",
+            exhaustive: false,
+            cases: Box::new(|_| {
+                [vec![4097usize], vec![4098], vec![8193], vec![65, 64], vec![65, 65], vec![3, 2731], vec![2, 4099], vec![17, 17, 15], vec![9, 8, 8, 9], vec![10, 9, 11, 9]]
+                    .into_iter()
+                    .map(|shape| ShapeCase { shape })
+                    .collect()
+            }),
+            eval: Box::new(eval_shape),
+        }),
         Box::new(RandomPart {
             name: "lib-random",
             rule: "random shapes (1..4 axes, lengths 1..7) x integer/real/sparse values x random fill; same oracle; distinct by (spectrum, fill)",
